@@ -99,7 +99,7 @@ def render(t) -> str:
         return src
     if n == "ComparisonTarget":
         op = f["operator"].name if isinstance(f.get("operator"), Term) else "?"
-        sym = {"Equal": "==", "Is": "is", "NotEqual": "!=", "IsNot": "is not"}.get(op)
+        sym = {"Equal": "==", "Is": "is", "NotEqual": "!=", "IsNot": "is not", "GreaterThanEqual": ">=", "LessThanEqual": "<=", "GreaterThan": ">", "LessThan": "<", "In": "in", "NotIn": "not in"}.get(op)
         if sym is None:
             raise Undecided(f"comparison operator {op}")
         return f" {sym} {render(f['comparator'])}"
